@@ -1,0 +1,11 @@
+//go:build verif
+
+// Machine-checked contracts for package vsix (comment-only; see /verif/DESIGN.md).
+
+package vsix
+
+//@ func (*mangler).makeSignature
+//@   property C11
+//@   nopanic
+//@   requires m != nil && m.ctypes != nil && cert != nil
+//@   allocbound 0 16 * len(m.digests)
